@@ -365,3 +365,21 @@ Theorem C10_source_tie_window_views :
   gen_duplicate_force_sorts = true /\ gen_cd_duplicate_before_yearly = true.
 Proof. exact window_views_gen_agree. Qed.
 Print Assumptions C10_source_tie_window_views.
+
+(** Source tie (regenerated on every run): the window itself.  `EntrySetIterator` and `AbstractEntrySet.duplicate` / `__iter__`
+    are re-read from abstract_entry_set.py as tables (Model/GeneratedTie.v, fragment entry_set: per entry the tests in source
+    order - which date of the entry, which bound, which comparison, stop or skip -, the optional skipping loop of `__init__`,
+    the statements of `duplicate` with `_force_sort` inlined) and interpreted by Model/EntrySetGen.v.  For the current source:
+    a loop over `s.duplicate(from_date, to_date)` sees exactly [iter_window] on the entry's OWN calendar day
+    (`timestamp.date()`), the to-date test first and STOPPING the traversal (finding F9), the from-date test only skipping; and
+    the copy has always been re-sorted under its own to-date, whatever the state of the original (so the fraction numbering
+    of the view is [numbering to_day]).  A window on the UTC day or on instants, an upper bound without the sub-second tail, a
+    from-date test on the leading entries only, or a `duplicate` that sorts only "if not sorted yet" stops compiling here
+    (Proofs/EntrySetGenProofs.v). *)
+From RP2V Require Import Model.EntrySetGen Proofs.EntrySetGenProofs.
+Theorem C10_source_tie_entry_window :
+  (forall (A : Type) (ts : A -> tstamp) from_arg to_arg (st : es_state) (l : list A),
+     window_view_gen ts from_arg to_arg st l = (iter_window (fun x => local_day (ts x)) from_arg to_arg l, Some to_arg)) /\
+  (forall t, it_key_val gen_es_sort_key t = utc_us t).
+Proof. exact (conj window_copy_gen_agrees es_sort_key_is_instant). Qed.
+Print Assumptions C10_source_tie_entry_window.
